@@ -30,6 +30,9 @@ def qs(rng):
         return rng.choice(WORDS) + rng.choice([" ", ",", "=", "-", ""]) + rng.choice(WORDS)
     if r < 0.85:
         return ""
+    if r < 0.87:
+        # long (a value cut, capped or copied into a fixed buffer shows here), with leading / trailing blanks kept inside the quotes
+        return rng.choice(["", " "]) + "".join(rng.choice("abcXYZ019 ,=-_/:.éß日😀") for _ in range(rng.choice([64, 130, 260, 600]))) + rng.choice(["", " "])
     return "".join(rng.choice("abcXYZ019 ,=-_/:.éß日😀") for _ in range(rng.randint(1, 12)))
 
 
